@@ -70,13 +70,19 @@ class HT(pg.Object):
   a: T.Any() = None
 
 
+class HDoc(pg.Object):
+  """Doc with <b>markup</b> & "quotes" </div> <!-- --> ]]>."""
+  x: pg.typing.Annotated[T.Any(), 'field doc <i>x</i> & </span>'] = None
+  y: pg.typing.Annotated[T.Any(), "doc 'y' <script>alert(1)</script>"] = None
+
+
 class Req(pg.Object):
   """Has a required field (no default), so it can be partial."""
   r: T.Int()
   n: T.Any() = None
 
 
-CLASSES = {c.__name__: c for c in (P, Q, R, W, NC, Typed, Req, HT)}
+CLASSES = {c.__name__: c for c in (P, Q, R, W, NC, Typed, Req, HT, HDoc)}
 UNTYPED = ('P', 'Q', 'R', 'W')
 FIELDS = {'P': ('x', 'y'), 'Q': ('x', 'y'), 'R': ('x', 'y', 'z'), 'W': ('a', 'b'),
-          'NC': ('x', 'y'), 'Typed': ('i', 's', 'e', 'l', 'd', 't', 'o', 'u'), 'Req': ('r', 'n')}
+          'NC': ('x', 'y'), 'HDoc': ('x', 'y'), 'Typed': ('i', 's', 'e', 'l', 'd', 't', 'o', 'u'), 'Req': ('r', 'n')}
